@@ -5,7 +5,7 @@ from ..ref import P, L, to32, le
 
 REQUIRED = ['sqrt:residue', 'sqrt:nonresidue', 'sqrt:zero', 'invert:zero', 'invert:nonzero', 'repr:canonical', 'repr:noncanonical',
             'repr:highbit', 'consts', 'enc:edwards', 'enc:subgroup-torsion', 'enc:subgroup-free', 'enc:ristretto',
-            'subgroup:torsion', 'subgroup:free', 'ops:edwards', 'ops:subgroup', 'ops:ristretto']
+            'subgroup:torsion', 'subgroup:free', 'ops:edwards', 'ops:subgroup', 'ops:ristretto', 'ops:scaled', 'field-bits']
 
 
 def B(x):
@@ -103,6 +103,11 @@ def scalars(ctx, n):
         else:
             vs.append(vals.canon_scalar(rng))
     for c, v in vs:
+        # PrimeFieldBits (feature group-bits): little-endian bits of the canonical representative, and of l
+        if rng.random() < 0.5:
+            bs = to32(v)
+            ctx.add('gp.bits', cs(v), expect=[bs.hex(), to32(L).hex(), ''.join(str((bs[i // 8] >> (i % 8)) & 1) for i in range(256)), '#256'],
+                    cls='field-bits')
         qr = is_qr(v)
 
         def chk(t, v=v, qr=qr):
